@@ -24,11 +24,14 @@ type PathElem struct {
 
 // C14Case: a valid document, a path, search options and an entry point.
 type C14Case struct {
-	Doc     []byte     `json:"doc"`
-	DocText string     `json:"doc_text,omitempty"`
-	Path    []PathElem `json:"path"`
-	Opts    int        `json:"opts"`  // bit0 ValidateJSON, bit1 CopyReturn, bit2 ConcurrentRead
-	Entry   int        `json:"entry"` // see c14EntryNames
+	Doc     []byte       `json:"doc"`
+	DocText string       `json:"doc_text,omitempty"`
+	Path    []PathElem   `json:"path"`
+	Warm    [][]PathElem `json:"warm,omitempty"` // paths looked up earlier on the same root node
+	Opts    int          `json:"opts"`           // bit0 ValidateJSON, bit1 CopyReturn, bit2 ConcurrentRead
+	Entry   int          `json:"entry"`          // see c14EntryNames
+
+	warmDiff string
 }
 
 func init() { register("C14", func() Case { return &C14Case{} }) }
@@ -44,6 +47,22 @@ func drawC14(t *rapid.T) Case {
 	c.Opts = rapid.IntRange(0, 7).Draw(t, "opts")
 	c.Entry = rapid.IntRange(0, len(c14EntryNames)-1).Draw(t, "entry")
 	root := ref.Parse(c.Doc)
+	c.Path = drawC14Path(t, root)
+	// earlier lookups on the same root node (entry points that keep one): they leave it partially loaded
+	if c.Entry >= 5 {
+		for k := rapid.IntRange(0, 3).Draw(t, "nwarm"); k > 0; k-- {
+			c.Warm = append(c.Warm, drawC14Path(t, root))
+		}
+	}
+	if isPrintableUTF8(c.Doc) {
+		c.DocText = string(c.Doc)
+	}
+	return c
+}
+
+// drawC14Path draws a path into the document: mostly existing, sometimes missing, out of range or into a scalar.
+func drawC14Path(t *rapid.T, root *ref.Node) []PathElem {
+	var path []PathElem
 	cur := root
 	depth := 4 - rapid.IntRange(0, 4).Draw(t, "pathlen") // biased to long paths; stops early at scalars
 	for d := 0; d < depth && cur != nil; d++ {
@@ -52,23 +71,23 @@ func drawC14(t *rapid.T) Case {
 		case ref.TObjOpen:
 			if len(cur.Keys) == 0 || miss {
 				k := []string{"nope", "", "A", "a", "missing\"key"}[rapid.IntRange(0, 4).Draw(t, "misskey")]
-				c.Path = append(c.Path, PathElem{Key: &k})
+				path = append(path, PathElem{Key: &k})
 				cur = nil
 				break
 			}
 			i := rapid.IntRange(0, len(cur.Keys)-1).Draw(t, "member")
 			k := cur.Keys[i].Str
-			c.Path = append(c.Path, PathElem{Key: &k})
+			path = append(path, PathElem{Key: &k})
 			cur = cur.Elems[firstIndexOfKey(cur, k)]
 		case ref.TArrOpen:
 			if len(cur.Elems) == 0 || miss {
 				i := len(cur.Elems) + rapid.IntRange(0, 3).Draw(t, "beyond")*1000
-				c.Path = append(c.Path, PathElem{Index: &i})
+				path = append(path, PathElem{Index: &i})
 				cur = nil
 				break
 			}
 			i := rapid.IntRange(0, len(cur.Elems)-1).Draw(t, "elem")
-			c.Path = append(c.Path, PathElem{Index: &i})
+			path = append(path, PathElem{Index: &i})
 			cur = cur.Elems[i]
 		default:
 			// wrong kind: step into a scalar (rarely; usually the path just ends at the scalar)
@@ -78,18 +97,15 @@ func drawC14(t *rapid.T) Case {
 			}
 			if rapid.Bool().Draw(t, "scalarkey") {
 				k := "a"
-				c.Path = append(c.Path, PathElem{Key: &k})
+				path = append(path, PathElem{Key: &k})
 			} else {
 				i := 0
-				c.Path = append(c.Path, PathElem{Index: &i})
+				path = append(path, PathElem{Index: &i})
 			}
 			cur = nil
 		}
 	}
-	if isPrintableUTF8(c.Doc) {
-		c.DocText = string(c.Doc)
-	}
-	return c
+	return path
 }
 
 func firstIndexOfKey(n *ref.Node, key string) int {
@@ -102,9 +118,11 @@ func firstIndexOfKey(n *ref.Node, key string) int {
 }
 
 // follow resolves the path in the reference tree; nil = does not exist.
-func (c *C14Case) follow(root *ref.Node) *ref.Node {
+func (c *C14Case) follow(root *ref.Node) *ref.Node { return followPath(root, c.Path) }
+
+func followPath(root *ref.Node, path []PathElem) *ref.Node {
 	cur := root
-	for _, pe := range c.Path {
+	for _, pe := range path {
 		if cur == nil {
 			return nil
 		}
@@ -128,9 +146,11 @@ func (c *C14Case) follow(root *ref.Node) *ref.Node {
 	return cur
 }
 
-func (c *C14Case) pathArgs() []interface{} {
-	out := make([]interface{}, len(c.Path))
-	for i, pe := range c.Path {
+func (c *C14Case) pathArgs() []interface{} { return pathArgsOf(c.Path) }
+
+func pathArgsOf(path []PathElem) []interface{} {
+	out := make([]interface{}, len(path))
+	for i, pe := range path {
 		if pe.Key != nil {
 			out[i] = *pe.Key
 		} else {
@@ -164,6 +184,7 @@ func (c *C14Case) locate() (n ast.Node, ok bool) {
 		n, err = sr.GetByPath(args...)
 	case 5:
 		root := ast.NewRaw(s)
+		c.warm(&root)
 		p := root.GetByPath(args...)
 		if p == nil || !p.Exists() || p.Check() != nil {
 			return n, false
@@ -179,6 +200,7 @@ func (c *C14Case) locate() (n ast.Node, ok bool) {
 		} else {
 			root = ast.NewRawConcurrentRead(s)
 		}
+		c.warm(&root)
 		cur := &root
 		for _, pe := range c.Path {
 			if pe.Key != nil {
@@ -200,6 +222,7 @@ func (c *C14Case) locate() (n ast.Node, ok bool) {
 		if err := root.LoadAll(); err != nil {
 			return n, false
 		}
+		c.warm(&root)
 		p := root.GetByPath(args...)
 		if p == nil || !p.Exists() || p.Check() != nil {
 			return n, false
@@ -210,6 +233,28 @@ func (c *C14Case) locate() (n ast.Node, ok bool) {
 		return n, false
 	}
 	return n, true
+}
+
+// warm performs the earlier lookups and remembers the first one whose outcome contradicts the reference.
+func (c *C14Case) warm(root *ast.Node) {
+	ref0 := ref.Parse(c.Doc)
+	for i, w := range c.Warm {
+		p := root.GetByPath(pathArgsOf(w)...)
+		found := p != nil && p.Exists() && p.Check() == nil
+		want := followPath(ref0, w)
+		switch {
+		case found != (want != nil):
+			c.warmDiff = fmt.Sprintf("earlier lookup #%d: found=%v, reference found=%v", i, found, want != nil)
+		case found:
+			raw, err := p.Raw()
+			if err != nil || ref.TokensEqual(c.Doc[want.Beg:want.End], []byte(raw), false) != "" {
+				c.warmDiff = fmt.Sprintf("earlier lookup #%d: Raw %s (err %v), reference %s", i, clipS(raw), err, clipB(c.Doc[want.Beg:want.End]))
+			}
+		}
+		if c.warmDiff != "" {
+			return
+		}
+	}
 }
 
 type c14Event struct {
@@ -296,6 +341,7 @@ func (c *C14Case) Run() (res stat.Result) {
 		return
 	}
 	want := c.follow(root)
+	c.warmDiff = ""
 	got, ok := c.locate()
 	what := fmt.Sprintf("%s(%s, path %s, opts %d)", c14EntryNames[c.Entry], clipB(c.Doc), c.pathString(), c.Opts)
 	res.Sub++
@@ -309,6 +355,12 @@ func (c *C14Case) Run() (res stat.Result) {
 		return res
 	}
 	c.classes(&res, root, want)
+	if len(c.Warm) > 0 {
+		res.Classes = append(res.Classes, "after-earlier-lookups")
+	}
+	if c.warmDiff != "" {
+		return fail("%s", c.warmDiff)
+	}
 	if want == nil {
 		if ok {
 			raw, _ := got.Raw()
